@@ -14,6 +14,7 @@ partial def dispatch (j : Json) : R Json := do
   | "convert" => handleConvert j
   | "gen" => handleGen j
   | "world" => handleWorld j
+  | "solo" => handleSolo j
   | "parse" => handleParse j
   | "tower" => handleTower j
   | "page" => handlePage j
